@@ -18,6 +18,7 @@ M_GROUPBY_NULLS = "pandas-check-groupby-ignore_na-keeps-nulls"
 M_FRAME_NULLS = "pandas-preprocess_table-ignore_na-keeps-null-rows"
 M_FRAME_VERDICT = "pandas-postprocess_table_with_field_output-ignore_na-only-all-null-rows"
 M_NFC_DUP = "pandas-n_failure_cases-groupby-on-duplicate-index"
+M_SCALAR_KEY = "pandas-format_groupby_input-len-of-scalar-group-key"
 
 
 def _errors(out):
@@ -45,6 +46,8 @@ class Obs:
         self.check_error = "CHECK_ERROR" in self.reasons
         self.only_check = set(self.reasons) <= {"DATAFRAME_CHECK"}
         self.scalar = False
+        self.error_text = " | ".join(
+            str(e)[:300] for e in errs if e.reason_code.name == "CHECK_ERROR")
         cells = []
         for e in errs:
             if e.reason_code.name != "DATAFRAME_CHECK":
@@ -129,20 +132,51 @@ def _chk(pa, fn, **kw):
     return pa.Check(fn, **{k: v for k, v in kw.items() if v is not None})
 
 
-def pd_schema(pa, level, kind, checks, groups_cols=False):
-    dt = G.PD_DTYPE[kind]
+def pd_schema(pa, level, data, checks, groups_cols=False):
+    dt = G.pd_dtype(data)
+    gcol = (lambda: pa.Column()) if data.get("gcat") else (lambda: pa.Column(str))
     if level == "series":
         return pa.SeriesSchema(dt, checks=checks, nullable=True, name="v")
     if level == "column":
         cols = {"v": pa.Column(dt, checks=checks, nullable=True)}
         if groups_cols:
-            cols["g"] = pa.Column(str)
-            cols["h"] = pa.Column(int)
+            cols["g"] = gcol()
+            cols["h"] = pa.Column(bool if data.get("hbool") else int)
         return pa.DataFrameSchema(cols)
     cols = {"v": pa.Column(dt, nullable=True), "w": pa.Column(dt, nullable=True)}
     if groups_cols:
-        cols["g"] = pa.Column(str)
+        cols["g"] = gcol()
+        cols["h"] = pa.Column(bool if data.get("hbool") else int)
     return pa.DataFrameSchema(cols, checks=checks)
+
+
+def warn_relation(J, P, W, tag="", what=None):
+    """raise_warning=True never raises and warns exactly when the plain check
+    (same function, same other options) fails."""
+    J.ev(tag + "raise_warning:never-raises")
+    J.ev(tag + "raise_warning:warns-iff-fails:" + P.verdict)
+    extra = {"plain": P.brief(), "with_warning": W.brief()}
+    if what:
+        extra["variant"] = what
+    if W.verdict != "accept":
+        J.bad("raise_warning=True-but-validate-raised", extra)
+    elif (W.n_warn >= 1) != (P.verdict == "reject"):
+        J.bad("raise_warning-warned-iff-failed-broken", extra)
+    elif P.n_warn:
+        J.bad("plain-check-emitted-SchemaWarning", extra)
+    else:
+        return True
+    return False
+
+
+def _isnull(x):
+    import pandas as pd
+    return x is None or x is pd.NA or (isinstance(x, float) and x != x)
+
+
+def _is_bool(x):
+    import numpy as np
+    return isinstance(x, (bool, np.bool_))
 
 
 def pd_obj(level, data, groups_cols=False):
@@ -150,7 +184,7 @@ def pd_obj(level, data, groups_cols=False):
         return G.pd_frame(data, ("v",))["v"]
     if level == "column":
         return G.pd_frame(data, ("v", "g", "h") if groups_cols else ("v", "w"))
-    return G.pd_frame(data, ("v", "w", "g") if groups_cols else ("v", "w"))
+    return G.pd_frame(data, ("v", "w", "g", "h") if groups_cols else ("v", "w"))
 
 
 def oracle(pred, data, ignore_na):
@@ -164,7 +198,7 @@ def oracle(pred, data, ignore_na):
             nn += 1
             if ignore_na:
                 continue
-            if G.raises_on_null(pred, data["kind"]):
+            if G.raises_on_null(pred, data["kind"], G.phys_of(data)):
                 return False, None, None, nn     # function raises: not judged
             x = float("nan") if data["kind"] == "float" else None
         if not f(x):
@@ -184,14 +218,14 @@ def column_relations(run, rng, pa, level, pred, data, ignore_na, lazy):
 
     # ---- variants
     recA = G.Rec(pred)
-    A = observe(pd_schema(pa, level, kind, [
+    A = observe(pd_schema(pa, level, data, [
         _chk(pa, recA, element_wise=True, ignore_na=ignore_na)]), obj, lazy)
     recB, shownB = G.Rec(pred), []
 
     def vec(s):
         shownB.append([G.norm(x) for x in s.tolist()])
         return s.map(recB)
-    B = observe(pd_schema(pa, level, kind, [
+    B = observe(pd_schema(pa, level, data, [
         _chk(pa, vec, ignore_na=ignore_na)]), obj, lazy)
 
     # R-ew-map: element_wise(f) == vectorised(map f)
@@ -230,7 +264,7 @@ def column_relations(run, rng, pa, level, pred, data, ignore_na, lazy):
                       {"element_wise_calls": recA.calls, "vectorised_input": shownB})
             J.ev("ignore_na=True:nulls-never-fail")
             d2 = G.drop_null_rows(data)
-            B2 = observe(pd_schema(pa, level, kind, [
+            B2 = observe(pd_schema(pa, level, data, [
                 _chk(pa, lambda s: s.map(G.py_pred(pred)), ignore_na=True)]),
                 pd_obj(level, d2), lazy)
             if B2.verdict != B.verdict:
@@ -238,7 +272,7 @@ def column_relations(run, rng, pa, level, pred, data, ignore_na, lazy):
                       {"with_nulls": B.brief(), "without": B2.brief()})
         else:
             J.ev("ignore_na=False:nulls-shown")
-            total = not G.raises_on_null(pred, kind)
+            total = not G.raises_on_null(pred, kind, G.phys_of(data))
             okA = recA.nulls_seen() == n_null if total else recA.nulls_seen() >= 1
             okB = any(s.count(None) == n_null for s in shownB)
             if not okA or not okB:
@@ -250,7 +284,7 @@ def column_relations(run, rng, pa, level, pred, data, ignore_na, lazy):
     nat = G.native_pandas(pred)
     if nat is not None and ignore_na:
         J.ev("native-vectorised==all(f(x))")
-        C = observe(pd_schema(pa, level, kind, [_chk(pa, nat, ignore_na=True)]),
+        C = observe(pd_schema(pa, level, data, [_chk(pa, nat, ignore_na=True)]),
                     obj, lazy)
         if C.verdict != ("accept" if exp_pass else "reject"):
             J.bad("native-vectorised-verdict-differs",
@@ -258,20 +292,15 @@ def column_relations(run, rng, pa, level, pred, data, ignore_na, lazy):
         elif not exp_pass and sorted(C.cells) != sorted(exp_fails):
             J.bad("native-vectorised-failure-cases-differ",
                   {"expected_fails": exp_fails, "observed": C.brief()})
-    if decided:
-        J.ev("scalar-output==all(f(x))")
-        f = G.py_pred(pred)
-        Sc = observe(pd_schema(pa, level, kind, [
-            _chk(pa, lambda s: bool(s.map(f).all()), ignore_na=ignore_na)]),
-            obj, lazy)
-        if Sc.verdict != ("accept" if exp_pass else "reject"):
-            J.bad("scalar-output-verdict-differs",
-                  {"expected_pass": exp_pass, "observed": Sc.brief()})
+    # R-scalar: functions returning ONE bool (aggregates, built-ins with a
+    # scalar result, bool Series that cannot be aligned with the data), with
+    # and without raise_warning / n_failure_cases
+    scalar_relations(J, rng, pa, level, pred, data, ignore_na, lazy, obj)
 
     # R-nfc: n_failure_cases never changes the verdict; reports a subset
     k = rng.choice([1, 1, 2, 3])
     f = G.py_pred(pred)
-    K = observe(pd_schema(pa, level, kind, [
+    K = observe(pd_schema(pa, level, data, [
         _chk(pa, lambda s: s.map(f), ignore_na=ignore_na, n_failure_cases=k)]),
         obj, lazy)
     same_report = nfc_verdict(J, B, K, data, k, "")
@@ -297,20 +326,10 @@ def column_relations(run, rng, pa, level, pred, data, ignore_na, lazy):
     if B.check_error or B.verdict == "exc":
         J.und("raise_warning-when-the-function-raises")
     else:
-        W = observe(pd_schema(pa, level, kind, [
+        W = observe(pd_schema(pa, level, data, [
             _chk(pa, lambda s: s.map(f), ignore_na=ignore_na,
                  raise_warning=True)]), obj, lazy)
-        J.ev("raise_warning:never-raises")
-        J.ev("raise_warning:warns-iff-fails:" + B.verdict)
-        if W.verdict != "accept":
-            J.bad("raise_warning=True-but-validate-raised",
-                  {"plain": B.brief(), "with_warning": W.brief()})
-        elif (W.n_warn >= 1) != (B.verdict == "reject"):
-            J.bad("raise_warning-warned-iff-failed-broken",
-                  {"plain": B.brief(), "with_warning": W.brief()})
-        elif B.n_warn:
-            J.bad("plain-check-emitted-SchemaWarning", {"plain": B.brief()})
-        elif S.diff(before, S.snap(W.out.result)):
+        if warn_relation(J, B, W) and S.diff(before, S.snap(W.out.result)):
             J.bad("raise_warning-returned-object-differs-from-input", {})
 
     if S.diff(before, S.snap(obj)):
@@ -318,11 +337,137 @@ def column_relations(run, rng, pa, level, pred, data, ignore_na, lazy):
     return J
 
 
+SCALAR_FORMS = ["all-py", "all-np", "count-py", "reindexed-series",
+                "short-series", "unique_values_eq", "unique_values_eq"]
+
+
+def scalar_relations(J, rng, pa, level, pred, data, ignore_na, lazy, obj):
+    """Check functions whose output is a single bool (docs/source/checks.md:
+    'output a boolean or a Series of boolean values'): the verdict is that
+    bool, computed on the documented input; raise_warning / n_failure_cases
+    behave as for any other check.  One form per case."""
+    import pandas as pd
+    kind = data["kind"]
+    f = G.py_pred(pred)
+    agg = G.agg_pandas(pred, kind)
+    form = rng.choice(SCALAR_FORMS + (["agg"] * 3 if agg else []))
+    k = rng.choice([1, 2])
+    n_null = sum(1 for x in data["v"] if G.is_null(x))
+    J.run.count(f"scalar:form:{form}")
+    builtin = form == "unique_values_eq"
+    if builtin:
+        nonnull = [x for x in data["v"] if not G.is_null(x)]
+        pool = G.pool_of(kind, G.phys_of(data))
+        values = sorted(set(nonnull)) if rng.random() < 0.55 else \
+            rng.sample(pool, rng.randint(0, min(3, len(pool))))
+        F = None
+    else:
+        values = None
+        F = {
+            "all-py": lambda s: bool(s.map(f).all()),
+            "all-np": lambda s: s.map(f).astype(bool).all(),
+            "count-py": lambda s: int((~s.map(f).astype(bool)).sum()) == 0,
+            "agg": agg,
+            "reindexed-series": lambda s: pd.Series(
+                s.map(f).to_numpy(dtype=bool),
+                index=["x%d" % i for i in range(len(s))]),
+            "short-series": lambda s: s.map(f).astype(bool).iloc[:len(s) // 2],
+        }[form]
+    extra = {"scalar_form": form, "values": values, "k": k}
+
+    def variant(**opts):
+        store = {"in": [], "out": [], "raised": 0}
+        if builtin:
+            chk = pa.Check.unique_values_eq(values, ignore_na=ignore_na, **opts)
+        else:
+            def fn(s):
+                store["in"].append([G.norm(x) for x in s.tolist()])
+                try:
+                    r = F(s)
+                except Exception:
+                    store["raised"] += 1
+                    raise
+                store["out"].append(r)
+                return r
+            fn.__name__ = "scalar_" + form.replace("-", "_")
+            chk = _chk(pa, fn, ignore_na=ignore_na, **opts)
+        return observe(pd_schema(pa, level, data, [chk]), obj, lazy), store
+
+    P, sP = variant()
+    # -- the verdict is the function's bool on the documented input
+    exp = None                     # None: not decided
+    if form == "short-series":
+        J.und("bool-series-of-other-length-than-the-data:verdict")
+    elif builtin:
+        if ignore_na or not n_null:
+            exp = set(nonnull) == set(values)
+        else:
+            J.und("unique_values_eq-with-ignore_na=False-on-nulls")
+    else:
+        doc_in = pd_obj("series", G.drop_null_rows(data) if ignore_na else data)
+        try:
+            r = F(doc_in)
+            if _is_bool(r):
+                exp = bool(r)
+            elif isinstance(r, pd.Series) and r.dtype == bool:
+                exp = bool(r.all())
+            else:
+                J.und("scalar-function-output-is-not-a-bool")
+        except Exception:  # noqa: BLE001
+            J.und("scalar-function-raises-on-the-documented-input")
+    if exp is not None:
+        J.ev("scalar-output==F(documented-input)")
+        J.ev(f"scalar-output==F(documented-input):{form}")
+        if P.verdict != ("accept" if exp else "reject") or P.check_error:
+            J.bad("scalar-output-verdict-differs",
+                  dict(extra, expected_pass=exp, observed=P.brief(),
+                       shown=sP["in"]))
+    if not builtin and len(sP["out"]) == 1 and _is_bool(sP["out"][0]) \
+            and not P.check_error:
+        J.ev("scalar-output:verdict==returned-bool")
+        J.run.count("scalar:returned:" + ("python-bool" if isinstance(sP["out"][0], bool) else "numpy-bool"))
+        if (P.verdict == "accept") != bool(sP["out"][0]):
+            J.bad("scalar-output-verdict-differs-from-the-returned-bool",
+                  dict(extra, returned=bool(sP["out"][0]), observed=P.brief()))
+    if not builtin and n_null:
+        if ignore_na:
+            J.ev("scalar-output:ignore_na=True:nulls-hidden")
+            if any(None in x for x in sP["in"]):
+                J.bad("ignore_na=True-but-function-was-shown-a-null",
+                      dict(extra, vectorised_input=sP["in"]))
+        else:
+            J.ev("scalar-output:ignore_na=False:nulls-shown")
+            if not any(x.count(None) == n_null for x in sP["in"]):
+                J.bad("ignore_na=False-but-nulls-were-not-shown",
+                      dict(extra, vectorised_input=sP["in"], n_null=n_null))
+    # -- options on a single-bool check
+    K, _ = variant(n_failure_cases=k)
+    J.ev("scalar-output:n_failure_cases:verdict-unchanged")
+    if (K.verdict, K.reasons) != (P.verdict, P.reasons):
+        J.bad("n_failure_cases-changes-the-verdict",
+              dict(extra, plain=P.brief(), with_k=K.brief()))
+    if P.check_error or P.verdict == "exc":
+        J.und("raise_warning-when-the-function-raises")
+        return
+    W, _ = variant(raise_warning=True)
+    warn_relation(J, P, W, "scalar-output:", dict(extra, opts="raise_warning"))
+    if rng.random() < 0.5:
+        WK, _ = variant(raise_warning=True, n_failure_cases=k)
+        warn_relation(J, P, WK, "scalar-output:",
+                      dict(extra, opts="raise_warning+n_failure_cases"))
+
+
 # ---------------------------------------------------------------- groupby
 def expected_groups(data, by, groups, cols=("v",), drop_null_in=()):
     """Pure-Python group-by: key -> [[label, value, ...]] in row order; rows
-    with a null in one of ``drop_null_in`` are removed first."""
+    with a null in one of ``drop_null_in`` are removed first.  A CATEGORICAL
+    grouping column contributes every category (restricted by ``groups``), the
+    ones without rows as empty groups."""
     out = {}
+    if list(by) == ["g"] and data.get("gcat"):
+        for c in data["gcat"]:
+            if groups is None or c in groups:
+                out[repr(G.norm(c))] = []
     labels = data["index"]["labels"]
     for i in range(len(data["v"])):
         key = tuple(data[c][i] for c in by)
@@ -336,89 +481,197 @@ def expected_groups(data, by, groups, cols=("v",), drop_null_in=()):
     return out
 
 
+def groupby_plan(rng, level, data):
+    """The option values of one groupby case (JSON-able, replayable)."""
+    n = len(data["v"])
+    two = level == "column" and rng.random() < 0.3
+    if two:
+        by = ["g", "h"]
+        form = rng.choice(["list", "callable"])
+    else:
+        by = ["g"] if rng.random() < 0.7 else ["h"]
+        form = rng.choice(["str", "list", "callable", "callable_scalar"])
+    ignore_na = rng.random() < 0.7
+    nullcols = ("v",) if level == "column" else ("v", "w")
+    groups, named_emptied = None, False
+    if not two and rng.random() < 0.5:
+        col = by[0]
+        dropped = [ignore_na and any(G.is_null(data[c][i]) for c in nullcols)
+                   for i in range(n)]
+        surviving = sorted({data[col][i] for i in range(n) if not dropped[i]})
+        emptied = sorted({data[col][i] for i in range(n)} - set(surviving))
+        cats = data.get("gcat") if col == "g" else None
+        # a categorical column has every category as a group, with or without
+        # rows.  Otherwise `groups` may only name groups that exist; whether
+        # a group whose elements are all null still "exists" under
+        # ignore_na=True is not documented: named rarely, never judged
+        cand = list(cats) if cats else surviving
+        if not cats and emptied and rng.random() < 0.15:
+            cand, named_emptied = emptied, True
+        if cand:
+            sel = rng.sample(cand, rng.randint(1, min(2, len(cand))))
+            groups = sel[0] if (len(sel) == 1 and isinstance(sel[0], str)
+                                and rng.random() < 0.5) else sel
+    return {"two": two, "by": by, "form": form, "ignore_na": ignore_na,
+            "groups": groups, "named_emptied": named_emptied,
+            "ret": rng.choice(["py", "np", "series"]),
+            "rule": rng.choice(["elements", "elements", "nonempty"]),
+            "k": rng.choice([1, 2])}
+
+
 def groupby_relations(run, rng, pa, level, pred, data, lazy, force=None):
     """groupby hands the function exactly the groups of the grouping columns
-    (restricted by ``groups``).  ``force`` (replay): the witness' choices."""
+    (restricted by ``groups``); a groupby function returns one bool (or one
+    bool per group) which is the verdict, also under raise_warning /
+    n_failure_cases.  ``force`` (replay): the witness' plan."""
+    import numpy as np
     import pandas as pd
-    kind = data["kind"]
     n = len(data["v"])
-    two = level == "column" and rng.random() < 0.35
-    form = rng.choice(["str", "list", "callable"]) if not two else \
-        rng.choice(["list", "callable"])
+    plan = groupby_plan(rng, level, data)
     if force:
-        two = force["two"]
-        form = force["form"]
-    by = ["g", "h"] if two else ["g"]
-    groupby = {"str": "g", "list": list(by),
-               "callable": (lambda df: df.groupby(list(by)))}[form]
-    ignore_na = True if rng.random() < 0.7 else False
+        plan.update(force)
+    two, by, form = plan["two"], list(plan["by"]), plan["form"]
+    ignore_na, groups = plan["ignore_na"], plan["groups"]
+    groupby = {"str": by[0], "list": list(by),
+               "callable": (lambda df: df.groupby(list(by))),
+               "callable_scalar": (lambda df: df.groupby(by[0]))}[form]
     nullcols = ("v",) if level == "column" else ("v", "w")
-    # `groups` may only name groups that exist; with ignore_na=True a group
-    # whose rows are all null may or may not "exist" (not documented), so only
-    # groups with at least one null-free row are named
-    present = sorted({data["g"][i] for i in range(n)
-                      if not (ignore_na and any(G.is_null(data[c][i])
-                                                for c in nullcols))})
-    groups = None
-    if not two and present and rng.random() < 0.5:
-        sel = rng.sample(present, rng.randint(1, len(present)))
-        groups = sel[0] if len(sel) == 1 and rng.random() < 0.5 else sel
-    if force:
-        groups, ignore_na = force["groups"], force["ignore_na"]
-    glist = None if groups is None else ([groups] if isinstance(groups, str)
-                                         else groups)
+    glist = None if groups is None else (groups if isinstance(groups, list)
+                                         else [groups])
     J = Judge(run, {"backend": "pandas", "level": level, "pred": pred,
                     "data": data, "groupby": form, "two_columns": two,
-                    "groups": groups, "ignore_na": ignore_na, "lazy": lazy})
+                    "groups": groups, "ignore_na": ignore_na, "lazy": lazy,
+                    "plan": plan})
     cols = ("v",) if level == "column" else ("v", "w", "g")
-    shown = []
     f = G.py_pred(pred)
+    categorical = bool(data.get("gcat")) and "g" in by
+    keykind = ("categorical" if categorical else "str") if by[0] == "g" \
+        else ("bool" if data.get("hbool") else "int")
 
-    def fn(d):
-        rec = {}
-        for key, part in d.items():
-            rows = []
-            if isinstance(part, pd.Series):
-                for lab, x in zip(part.index.tolist(), part.tolist()):
-                    rows.append([repr(G.norm(lab)), repr(G.norm(x))])
-            else:
-                for lab, r in zip(part.index.tolist(),
-                                  part[list(cols)].values.tolist()):
-                    rows.append([repr(G.norm(lab))] + [repr(G.norm(x)) for x in r])
-            rec[repr(G.norm(key))] = rows
-        shown.append({"type": type(d).__name__, "groups": rec})
-        return True
-    chk = _chk(pa, fn, groupby=groupby, groups=groups, ignore_na=ignore_na)
-    obj = pd_obj(level, data, groups_cols=True)
-    O = observe(pd_schema(pa, level, kind, [chk], groups_cols=True), obj, lazy)
+    def make_fn(store, ret, rule):
+        def fn(d):
+            rec, per = {}, []
+            for key, part in d.items():
+                rows = []
+                if isinstance(part, pd.Series):
+                    vals = part.tolist()
+                    for lab, x in zip(part.index.tolist(), vals):
+                        rows.append([repr(G.norm(lab)), repr(G.norm(x))])
+                else:
+                    vals = part["v"].tolist()
+                    for lab, r in zip(part.index.tolist(),
+                                      part[list(cols)].values.tolist()):
+                        rows.append([repr(G.norm(lab))] + [repr(G.norm(x)) for x in r])
+                rec[repr(G.norm(key))] = rows
+                per.append(len(vals) > 0 if rule == "nonempty" else
+                           all(f(x) for x in vals if not _isnull(x)))
+            out = {"type": type(d).__name__, "groups": rec, "ret": all(per)}
+            store.append(out)
+            if ret == "true":
+                return True
+            if ret == "series":
+                return pd.Series(per, dtype=bool)
+            return bool(all(per)) if ret == "py" else np.bool_(all(per))
+        return fn
+
+    def variant(ret, rule, **opts):
+        store = []
+        chk = _chk(pa, make_fn(store, ret, rule), groupby=groupby,
+                   groups=groups, ignore_na=ignore_na, **opts)
+        return observe(pd_schema(pa, level, data, [chk], groups_cols=True),
+                       pd_obj(level, data, groups_cols=True), lazy), store
+
+    O, shown = variant("true", "elements")
     J.ev("groupby:exact-groups")
     run.count(f"groupby:form:{form}:{'2col' if two else '1col'}:"
               f"{'groups' if groups is not None else 'all'}")
+    run.count(f"groupby:keys:{keykind}")
+    if plan["named_emptied"]:
+        J.und("groupby:groups-names-a-group-emptied-by-ignore_na")
+        return J
     if O.verdict != "accept" or len(shown) != 1:
+        mech = None
+        if form == "callable_scalar" and keykind in ("int", "bool") and \
+                O.check_error and "has no len()" in O.error_text:
+            mech = M_SCALAR_KEY
         J.bad("groupby-check-did-not-run-once-and-pass",
-              {"observed": O.brief(), "calls": len(shown)})
+              {"observed": O.brief(), "calls": len(shown),
+               "error": O.error_text[:300]}, mech)
         return J
     got = shown[0]["groups"]
-    has_null = any(G.is_null(data[c][i]) for c in
-                   (("v",) if level == "column" else ("v", "w"))
-                   for i in range(n))
+    has_null = any(G.is_null(data[c][i]) for c in nullcols for i in range(n))
     want_keep = expected_groups(data, by, glist, cols)
+    want = expected_groups(data, by, glist, cols, nullcols) \
+        if ignore_na else want_keep
+    n_empty = sum(1 for v in want.values() if not v)
+    if n_empty:
+        run.count("groupby:case-with-empty-groups")
+        if glist is not None and all(not want.get(repr(G.norm(x))) for x in glist):
+            run.count("groupby:groups-names-only-empty-groups")
+    if any(G.is_null(x) for x in data["v"]) and ignore_na and \
+            len(want_keep) > sum(1 for v in want.values() if v):
+        run.count("groupby:case-with-a-group-emptied-by-ignore_na")
+    cmp_got = got
+    if categorical and two:
+        # two grouping columns, one categorical: which combinations without
+        # rows are groups is pandas' choice and not documented; the groups
+        # WITH rows are judged
+        J.und("groupby:empty-category-combinations-of-two-columns")
+        cmp_got = {k: v for k, v in got.items() if v}
+        want = {k: v for k, v in want.items() if v}
+        want_keep = {k: v for k, v in want_keep.items() if v}
+    if n_empty and not (categorical and two):
+        J.ev("groupby:empty-groups-handed-over")
     if ignore_na and has_null:
         # documented: nulls are dropped before the function sees the data
         # (column: null elements; dataframe: rows with any null)
-        want = expected_groups(data, by, glist, cols, nullcols)
         J.ev("groupby:ignore_na=True:nulls-hidden")
-        if got == want:
+        if cmp_got != want:
+            if cmp_got == want_keep:
+                J.bad("groupby-with-ignore_na=True-shows-nulls-to-the-function",
+                      {"shown": got, "expected": want},
+                      M_GROUPBY_NULLS if level == "column" else M_FRAME_NULLS)
+            else:
+                J.bad("groupby-groups-differ", {"shown": got, "expected": want})
             return J
-        if got == want_keep:
-            J.bad("groupby-with-ignore_na=True-shows-nulls-to-the-function",
-                  {"shown": got, "expected": want},
-                  M_GROUPBY_NULLS if level == "column" else M_FRAME_NULLS)
-            return J
-        J.bad("groupby-groups-differ", {"shown": got, "expected": want})
-        return J
-    if got != want_keep:
+    elif cmp_got != want_keep:
         J.bad("groupby-groups-differ", {"shown": got, "expected": want_keep})
+        return J
+
+    # ---- the function's single bool (or one bool per group) is the verdict;
+    # raise_warning / n_failure_cases on such a check
+    ret, rule, k = plan["ret"], plan["rule"], plan["k"]
+    run.count(f"groupby:returns:{ret}:{rule}")
+    P, sP = variant(ret, rule)
+    obs = [("plain", P, sP)]
+    K, sK = variant(ret, rule, n_failure_cases=k)
+    obs.append(("n_failure_cases", K, sK))
+    J.ev("groupby:verdict==returned-bool")
+    if len(sP) != 1 or P.check_error or \
+            (P.verdict == "accept") != sP[0]["ret"]:
+        J.bad("groupby-verdict-differs-from-the-returned-bool",
+              {"returned": [x["ret"] for x in sP], "returns": ret,
+               "observed": P.brief()})
+        return J
+    J.ev("groupby:n_failure_cases:verdict-unchanged")
+    if (K.verdict, K.reasons) != (P.verdict, P.reasons):
+        J.bad("n_failure_cases-changes-the-verdict",
+              {"k": k, "returns": ret, "plain": P.brief(), "with_k": K.brief()})
+    W, sW = variant(ret, rule, raise_warning=True)
+    obs.append(("raise_warning", W, sW))
+    warn_relation(J, P, W, "groupby:", {"returns": ret, "rule": rule})
+    if rng.random() < 0.4:
+        WK, sWK = variant(ret, rule, raise_warning=True, n_failure_cases=k)
+        obs.append(("raise_warning+n_failure_cases", WK, sWK))
+        warn_relation(J, P, WK, "groupby:", {"returns": ret, "rule": rule,
+                                             "opts": "+n_failure_cases"})
+    J.ev("groupby:options-do-not-change-the-groups")
+    for name, _, st in obs:
+        if len(st) != 1 or st[0]["groups"] != got:
+            J.bad("groupby-option-changes-the-groups-shown",
+                  {"option": name, "shown": [x["groups"] for x in st],
+                   "without": got})
+            break
     return J
 
 
@@ -452,9 +705,9 @@ def frame_relations(run, rng, pa, pred, data, ignore_na, lazy):
     def vecB(df):
         framesB.append(df[["v", "w"]].values.tolist())
         return df.apply(rowf(rowsB), axis=1)
-    A = observe(pd_schema(pa, "frame", kind, [
+    A = observe(pd_schema(pa, "frame", data, [
         _chk(pa, rowf(rowsA), element_wise=True, ignore_na=ignore_na)]), obj, lazy)
-    B = observe(pd_schema(pa, "frame", kind, [
+    B = observe(pd_schema(pa, "frame", data, [
         _chk(pa, vecB, ignore_na=ignore_na)]), obj, lazy)
     J.ev("frame:element_wise==row-map")
     if A.verdict != B.verdict or A.reasons != B.reasons or \
@@ -470,7 +723,7 @@ def frame_relations(run, rng, pa, pred, data, ignore_na, lazy):
                   {"rows_shown": rowsA}, M_FRAME_NULLS)
         J.ev("frame:ignore_na=True:nulls-never-fail")
         d2 = G.drop_null_rows(data, ("v",))
-        A2 = observe(pd_schema(pa, "frame", kind, [
+        A2 = observe(pd_schema(pa, "frame", data, [
             _chk(pa, rowf([]), element_wise=True, ignore_na=True)]),
             pd_obj("frame", d2), lazy)
         if A2.verdict != A.verdict:
@@ -483,27 +736,61 @@ def frame_relations(run, rng, pa, pred, data, ignore_na, lazy):
     elif null_rows:
         J.ev("frame:ignore_na=False:null-rows-shown")
         if sum(1 for r in rowsA if r[0] is None) != len(null_rows) and \
-                not G.raises_on_null(pred, kind):
+                not G.raises_on_null(pred, kind, G.phys_of(data)):
             J.bad("frame-check-ignore_na=False-but-null-rows-not-shown",
                   {"rows_shown": rowsA})
     # options on a frame-level check
     k = rng.choice([1, 2])
-    K = observe(pd_schema(pa, "frame", kind, [
+    K = observe(pd_schema(pa, "frame", data, [
         _chk(pa, lambda df: df.apply(lambda r: f(r["v"]), axis=1),
              ignore_na=ignore_na, n_failure_cases=k)]), obj, lazy)
     nfc_verdict(J, B, K, data, k, "frame:")
     if not (B.check_error or B.verdict == "exc"):
-        W = observe(pd_schema(pa, "frame", kind, [
+        W = observe(pd_schema(pa, "frame", data, [
             _chk(pa, lambda df: df.apply(lambda r: f(r["v"]), axis=1),
                  ignore_na=ignore_na, raise_warning=True)]), obj, lazy)
-        J.ev("raise_warning:never-raises")
-        J.ev("raise_warning:warns-iff-fails:" + B.verdict)
-        if W.verdict != "accept":
-            J.bad("raise_warning=True-but-validate-raised",
-                  {"plain": B.brief(), "with_warning": W.brief()})
-        elif (W.n_warn >= 1) != (B.verdict == "reject"):
-            J.bad("raise_warning-warned-iff-failed-broken",
-                  {"plain": B.brief(), "with_warning": W.brief()})
+        warn_relation(J, B, W)
+
+    # ---- dataframe-level functions returning ONE bool / a bool DataFrame:
+    # the returned value is the verdict (nulls are skipped by the function
+    # itself, what it is shown is judged above); raise_warning and
+    # n_failure_cases on such a check
+    import numpy as np
+    form = rng.choice(["scalar-py", "scalar-np", "dataframe"])
+    run.count(f"frame:returns:{form}")
+
+    def variant(**opts):
+        store = []
+
+        def fn(df):
+            if form == "dataframe":
+                out = df.map(lambda x: True if _isnull(x) else bool(f(x)))
+                out = out.astype(bool)
+                store.append(bool(out.all(axis=None)))
+                return out
+            r = all(f(x) for x in df["v"].tolist() if not _isnull(x))
+            store.append(r)
+            return bool(r) if form == "scalar-py" else np.bool_(r)
+        fn.__name__ = "frame_" + form.replace("-", "_")
+        return observe(pd_schema(pa, "frame", data, [
+            _chk(pa, fn, ignore_na=ignore_na, **opts)]), obj, lazy), store
+    P, sP = variant()
+    J.ev("frame:verdict==returned-bool")
+    if len(sP) != 1 or P.check_error or (P.verdict == "accept") != sP[0]:
+        J.bad("frame-check-verdict-differs-from-the-returned-bool",
+              {"returns": form, "returned": sP, "observed": P.brief()})
+        return J
+    K, _ = variant(n_failure_cases=k)
+    J.ev("frame:returns-bool:n_failure_cases:verdict-unchanged")
+    if (K.verdict, K.reasons) != (P.verdict, P.reasons):
+        J.bad("n_failure_cases-changes-the-verdict",
+              {"k": k, "returns": form, "plain": P.brief(), "with_k": K.brief()})
+    W, _ = variant(raise_warning=True)
+    warn_relation(J, P, W, "frame:returns-bool:", {"returns": form})
+    if rng.random() < 0.4:
+        WK, _ = variant(raise_warning=True, n_failure_cases=k)
+        warn_relation(J, P, WK, "frame:returns-bool:",
+                      {"returns": form, "opts": "+n_failure_cases"})
     return J
 
 
@@ -563,8 +850,8 @@ def alias_relations(run, rng, pa, pp, spec, data, level, lazy):
               {"alias_repr": repr(a), "canonical_repr": repr(c),
                "alias_stats": a.statistics, "canonical_stats": c.statistics})
     obj = pd_obj(level, data)
-    oa = observe(pd_schema(pa, level, kind, [a]), obj, lazy)
-    oc = observe(pd_schema(pa, level, kind, [c]), obj, lazy)
+    oa = observe(pd_schema(pa, level, data, [a]), obj, lazy)
+    oc = observe(pd_schema(pa, level, data, [c]), obj, lazy)
     J.ev("alias:same-outcome:pandas")
     if (oa.verdict, oa.reasons, oa.cells, oa.n_warn) != \
             (oc.verdict, oc.reasons, oc.cells, oc.n_warn):
